@@ -107,9 +107,10 @@ CLAIMED = {
     text='Slice: the glue code of mem_cache<Setup> (src/cache_storage.cpp) over abstract containers. fetch: a hit is never an expired entry and a miss is never a live one; a hit returns exactly the value, deadline, generation and trigger list of the node '
          'found under the key and makes it the most recently used entry; nothing else changes. store: an entry already stored under the key is deleted first; the new node carries the value, a generation no earlier store had (the counter strictly increases) '
          'or the caller\'s, its deadline is registered, and the key itself plus every listed trigger are attached to it. remove deletes the node under the key and no other. rise deletes every entry on the trigger\'s list exactly once, in order, and nothing else. '
-         'delete_node takes the node out of ALL four structures (LRU position, deadline entry, every trigger link it owns, key map) and the counters follow. Representation invariant size = |primary| = |lru| = |timeout|, triggers_count = number of links, kept by every function.',
+         'delete_node takes the node out of ALL four structures (LRU position, deadline entry, every trigger link it owns, key map) and the counters follow. Representation invariant size = |primary| = |lru| = |timeout|, triggers_count = number of links, kept by every function. cache_interface (trigger recording): add_trigger attaches the trigger to the page being built and hands it to EVERY active recorder exactly once; '
+         'fetch of a cached frame inherits every trigger the back end reports (in order, once each; none on a miss or with notriggers); store adds the frame\'s triggers and its own key to the enclosing page and passes exactly key, data, trigger set and now+timeout (negative = never) to the back end.',
     note=TRUST + 'NOT covered: the containers themselves (private/hash_map.h, std::list, std::multimap: iterators are opaque handles, every operation is a recorder with ghost cardinalities), hence the history-level statement '
-         '(a fetch returns the value of the most recent store unless invalidated) which is a composition of these per-call contracts with container semantics; cache_interface trigger recorders; locks are dropped (C09 n/a); bad_alloc paths are cut. '
+         '(a fetch returns the value of the most recent store unless invalidated) which is a composition of these per-call contracts with container semantics; fetch_page/store_page (response stream) and the recorder objects\' own set operations; locks are dropped (C09 n/a); bad_alloc paths are cut. '
          'add_trigger and nl_clear are contract stubs. Deadline equal to now may count either way.',
     design='4 (C07/C08)', technique='cbmc code contracts (dfcc) + loop contracts on extracted C; abstract containers as recorders with ghost cardinalities; representation invariant'),
  'C08': dict(
